@@ -33,6 +33,7 @@ type Program struct {
 	globals      map[*types.Var]*ssa.Global
 	loadSecs     float64
 	overlay      map[string][]byte
+	fieldArrs    map[string]int
 }
 
 const modPath = "github.com/prometheus/prometheus"
@@ -230,6 +231,19 @@ func (p *Program) typesPkg(path string) *types.Package {
 }
 
 func (p *Program) globalFor(v *types.Var) *ssa.Global { return p.globals[v] }
+
+// fieldArrID numbers the array-typed struct fields that are modelled as backing-store rows.
+func (p *Program) fieldArrID(key string) int {
+	if p.fieldArrs == nil {
+		p.fieldArrs = map[string]int{}
+	}
+	if id, ok := p.fieldArrs[key]; ok {
+		return id
+	}
+	id := len(p.fieldArrs)
+	p.fieldArrs[key] = id
+	return id
+}
 
 func (p *Program) typeID(t types.Type) int {
 	k := typeKey(t)
